@@ -51,8 +51,14 @@ def _child(directory, cfg, ops, kill_at, logfd, countfd):
         envctl.SeededUrandom(cfg.get('seed', 1)).install()
         lst = KillListener(kill_at)
         interpose.install(None, directory)
-        cache = diskcache.Cache(directory, timeout=1)
-        cache.__enter__()                                   # connection opened before the counted part
+        if cfg.get('fresh'):
+            # the victim CREATES the cache: every statement and file operation of the first open is a kill point
+            interpose.set_listener(lst, directory)
+            cache = diskcache.Cache(directory, timeout=1, eviction_policy=POLICY[cfg['policy']], cull_limit=cfg['cull'],
+                                    size_limit=cfg['limit'], statistics=cfg['stats'], disk_min_file_size=FRESH_MIN_FILE)
+        else:
+            cache = diskcache.Cache(directory, timeout=1)
+            cache.__enter__()                               # connection opened before the counted part
         km = KeyMap(cache.disk.pickle_protocol)
         vm = ValMap(cache.disk.min_file_size, cache.disk.pickle_protocol)
         api = ApiAdapter(diskcache, km, vm, clock)
@@ -110,9 +116,14 @@ def _child(directory, cfg, ops, kill_at, logfd, countfd):
         os._exit(0)
 
 
+FRESH_MIN_FILE = 2 ** 14      # a non-default setting of the creating victim
+
+
 def setup_dir(cfg, init_ops):
     import diskcache
     d = envctl.scratch('kill')
+    if cfg.get('fresh'):
+        return d, []
     clock = envctl.Clock().install()
     try:
         envctl.SeededUrandom(7).install()
@@ -138,12 +149,26 @@ def setup_dir(cfg, init_ops):
 def observe(directory, cfg, files0=None):
     """What a fresh handle sees after the kill (all through public API + raw reads)."""
     import diskcache
-    obs = {'ev': 'obs', 'opened': 0, 'wrote': 0, 'clean2': 0, 'warn1': [], 'readable': 1}
+    obs = {'ev': 'obs', 'opened': 0, 'wrote': 0, 'clean2': 0, 'warn1': [], 'readable': 1, 'settings_bad': []}
     clock = envctl.Clock().install()
     clock.tick = cfg.get('now', 0)
     try:
         c = diskcache.Cache(directory, timeout=2)
         obs['opened'] = 1
+        # every setting is there, with the default or with what the creating process asked for
+        wanted = dict(diskcache.DEFAULT_SETTINGS)
+        mine = {'eviction_policy': POLICY[cfg['policy']], 'cull_limit': cfg['cull'], 'size_limit': cfg['limit'],
+                'statistics': 1 if cfg['stats'] else 0, 'disk_min_file_size': FRESH_MIN_FILE if cfg.get('fresh') else wanted['disk_min_file_size']}
+        bad = []
+        for k_, dv in wanted.items():
+            try:
+                got_ = getattr(c, k_)
+            except AttributeError:
+                bad.append(k_)
+                continue
+            if got_ != dv and got_ != mine.get(k_, dv) and int(got_) != int(mine.get(k_, dv)):
+                bad.append(k_)
+        obs['settings_bad'] = sorted(bad)
         km = KeyMap(c.disk.pickle_protocol)
         vm = ValMap(c.disk.min_file_size, c.disk.pickle_protocol)
         con = interpose.real_connect(os.path.join(directory, 'cache.db'), timeout=2, isolation_level=None)
